@@ -31,7 +31,8 @@ PROP = "C03"
 RULE = ("random objective/box/N=1..5/density/r; eps in {1e-4..1.5} (incl. eps >= 1) and itersLimit in {1,2,3,4,5,8,...,400} "
         "with 40% of the cases forced to itersLimit in {1,2,3} or eps in {1.0,1.5}; 15% with refineSolution=True (local-phase "
         "calls must not be counted); 25% with 1..60 iterations made through DoGlobalIteration calls before Solve (below, at and above "
-        "the budget: Solve must end at the first moment the rule holds, at once if it already does), 20% with a second Solve after "
+        "the budget; in 30% of these the user then calls DoLocalRefinement before Solve and the global search must go on unimpaired; "
+        "Solve must end at the first moment the rule holds, at once if it already does), 20% with a second Solve after "
         "itersLimit/eps of the shared parameters object were changed in place (it must continue to the new criterion); 3% objectives with "
         "a huge penalty value (1e100 .. 1.8e308, inf) on a band: Solve must terminate. Distinct by parameter set; non-trivial if the run has >= 2 trials; the stats split the "
         "runs into accuracy stops, budget stops and both.")
@@ -120,6 +121,8 @@ def _check_case(case):
         for k in pre:
             if not run.iterate(k):
                 break
+        if case.get("mid_refine") and pre:
+            run.refine(case["mid_refine"])      # the user polishes the current optimum, then lets Solve() continue the global search
         T0 = len(run.glog())
         sol = run.solve()
         A.append(len(run.glog()))
@@ -218,7 +221,9 @@ def gen(r):
             k = r.randint(1, tot)
             pre.append(k); tot -= k
         case["pre"] = pre
-    if 0.2 < v < 0.4 and not case["refine"]:
+        if r.random() < 0.3:
+            case["mid_refine"] = r.choice([-1, -1, 5, 40])
+    if 0.2 < v < 0.4:
         # a second Solve after the parameters object was changed in place (larger budget and/or smaller eps, or unchanged)
         case["again"] = {"lim": case["lim"] + r.choice([0, 1, 2, 7, 30]), "eps": case["eps"] * r.choice([1.0, 1.0, 0.5, 0.1])}
     return case
